@@ -259,6 +259,78 @@ def drive(rec, part, ms, quick):
     rec.data["events"] = events
 
 
+def drive_first_use(rec, order):
+    """A fresh process (nothing has used the caches of the *_simple conversions yet): (a) the first call of a dimension declares a small
+    bound, later calls the full one - or the reverse (order 1); (b) dimensions 2^16, 2^17, 2^18 one after the other.  Sampled elements of
+    every call are recorded and judged by the contract."""
+    rng = random.Random(rec.seed * 53 + order)
+    L = Lib.get()
+    events = []
+
+    def sample_idx(n):
+        return sorted(set([0, 1, 2, n // 4, n // 2 - 1, n // 2, n // 2 + 1, n - 2, n - 1] + [rng.randrange(n) for _ in range(40)]))
+
+    def from_znx64(m, bound, what):
+        n = 2 * m
+        top = (1 << bound) - 1
+        xs = np.array([rng.choice([top, -top, top - 1, rng.randrange(-top, top + 1)]) for _ in range(n)], dtype=np.int64)
+        X, R = Buf(8 * n), Buf(8 * n, fill=0xEE)
+        X.i64[:] = xs
+        label = "reim_from_znx64_simple m=%d log2bound=%d, %s" % (m, bound, what)
+        if not rec.progress(label):
+            return
+        L.fn("reim_from_znx64_simple", "v wwpp")(m, bound, R.addr, X.addr)
+        rec.case(("first-use", "from_znx64", m, bound, what))
+        idx = sample_idx(n)
+        events.append({"e": "Conv", "conv": "from_znx64", "m": len(idx), "x": [to_words(int(xs[i]), 4) for i in idx],
+                       "r": [to_words(int(R.i64[i]), 4) for i in idx], "_what": label})
+
+    def to_znx64(m, bound, what):
+        n = 2 * m
+        lim = min(bound, 52)
+        ys = fill(y_values("to_znx64", lim, rng, 60), n, rng)
+        X, R = Buf(8 * n), Buf(8 * n, fill=0xEE)
+        X.f64[:] = ys
+        label = "reim_to_znx64_simple m=%d log2bound=%d, %s" % (m, bound, what)
+        if not rec.progress(label):
+            return
+        L.fn("reim_to_znx64_simple", "v wdwpp")(m, 1.0, bound, R.addr, X.addr)
+        rec.case(("first-use", "to_znx64", m, bound, what))
+        idx = sample_idx(n)
+        events.append({"e": "Conv", "conv": "to_znx64", "m": len(idx), "x": [dbits(ys[i]) for i in idx], "r": [to_words(int(R.i64[i]), 4) for i in idx],
+                       "dl": 0, "bound": bound, "_what": label})
+
+    def from_i32(fname, conv, m, what):
+        n = 2 * m
+        xs = np.array([rng.choice([(1 << 31) - 1, -(1 << 31), rng.randrange(-(1 << 31), 1 << 31)]) for _ in range(n)], dtype=np.int64)
+        X, R = Buf(4 * n), Buf(8 * n, fill=0xEE)
+        X.view(np.int32)[:] = xs
+        label = "%s m=%d, %s" % (fname, m, what)
+        if not rec.progress(label):
+            return
+        L.fn(fname, "v wpp")(m, R.addr, X.addr)
+        rec.case(("first-use", conv, m, what))
+        order_ = lambda i: (i // 2) + (m if i % 2 else 0)          # input: m real parts then m imaginary parts; output interleaved
+        idx = sample_idx(n)
+        events.append({"e": "Conv", "conv": conv, "m": len(idx), "x": [to_words(int(xs[order_(i)]), 2) for i in idx],
+                       "r": [to_words(int(R.i64[i]), 4) for i in idx], "_what": label})
+
+    seq = [(20, 50), (0, 50), (31, 50), (32, 45)] if order == 0 else [(50, 20), (50, 0), (50, 31)]
+    for m, (b1, b2) in zip((16, 64, 8, 32), seq):
+        from_znx64(m, b1, "first call of the dimension in this process")
+        from_znx64(m, b2, "after a call that declared bound %d" % b1)
+        from_znx64(m, b1, "third call")
+    for m, (b1, b2) in zip((16, 64, 8), [(10, 63), (50, 52), (63, 50)] if order == 0 else [(63, 10), (52, 50), (50, 63)]):
+        to_znx64(m, b1, "first call of the dimension in this process")
+        to_znx64(m, b2, "after a call that declared bound %d" % b1)
+    for m in ((1 << 16, 1 << 17, 1 << 18) if order == 0 else (1 << 18, 1 << 16, 1 << 17)):
+        from_znx64(m, 50, "large dimensions one after the other")
+        to_znx64(m, 63, "large dimensions one after the other")
+        from_i32("cplx_from_znx32_simple", "from_znx32", m, "large dimensions one after the other")
+        from_i32("cplx_from_tnx32_simple", "from_tnx32", m, "large dimensions one after the other")
+    rec.data["events"] = events
+
+
 def run(chk, replay=None):
     quick = chk.tier == "quick"
     Lib.get()
@@ -272,6 +344,7 @@ def run(chk, replay=None):
             raise RuntimeError("ToyFloat P=%d failed: %s" % (P, rt.out[-600:]))
     ms = [1, 2, 4, 8, 16, 64] if quick else [1, 2, 4, 8, 16, 32, 64, 256, 1024]
     jobs = [("numeric conversions m=%s" % ms[i::6], drive, (i, ms[i::6], quick)) for i in range(6) if ms[i::6]]
+    jobs += [("first uses of the conversion caches, order %d" % o, drive_first_use, (o,)) for o in (0, 1)]
     res = isolated_many(chk, jobs, timeout=2400, nproc=6)
     events = [ev for d in res if d for ev in d["events"]]
     clean = [{k: v for k, v in ev.items() if not k.startswith("_")} for ev in events]
